@@ -33,6 +33,9 @@ type FuncReport struct {
 	IntMode     string
 	Instrs      int
 	Inlined     []string
+	enc         *Enc
+	fr          *Frame
+	contract    *FuncContract
 }
 
 var prelude = []string{
@@ -105,6 +108,7 @@ func (w *World) verifyFunc(fn *ssa.Function, c *FuncContract) (rep *FuncReport) 
 	e.assume(st, fmt.Sprintf("(>= %s %s)", alloc0, pow2(40)))
 	fr := &Frame{fn: fn, vals: map[ssa.Value]*Val{}, top: true, contract: c}
 	e.top = fr
+	rep.enc, rep.fr, rep.contract = e, fr, c
 	for _, p := range fn.Params {
 		v := e.fresh(p.Type(), "p."+sanitize(p.Name()))
 		fr.vals[p] = v
@@ -445,6 +449,45 @@ func cmdCheck(args []string) int {
 	if pid == "" {
 		pid = "ALL"
 	}
+	// replay the counterexamples of sat obligations against the real code
+	if os.Getenv("GOVC_NO_REPLAY") == "" {
+		repOf := map[*Obligation]*FuncReport{}
+		for _, r := range reps {
+			for _, o := range r.Obls {
+				repOf[o] = r
+			}
+		}
+		var todo []*Obligation
+		for _, o := range failed {
+			if known.match(pid, o.Name) != nil {
+				continue
+			}
+			if o.Result.Status == "sat" && !o.ExpectSat {
+				todo = append(todo, o)
+			} else {
+				o.replay = &replayResult{Note: "no model: the solvers answered " + o.Result.Status + " (quantified or too hard); nothing to replay"}
+			}
+		}
+		maxReplay := 8
+		var wg sync.WaitGroup
+		sem := make(chan struct{}, 3)
+		for i, o := range todo {
+			if i >= maxReplay {
+				o.replay = &replayResult{Note: "replay not attempted: more than 8 failing obligations in this run"}
+				continue
+			}
+			wg.Add(1)
+			go func(o *Obligation) {
+				defer wg.Done()
+				sem <- struct{}{}
+				defer func() { <-sem }()
+				r := w.replayObligation(repOf[o], o, *root, 30)
+				o.replay = &r
+				o.replayConfirmed = r.Confirmed
+			}(o)
+		}
+		wg.Wait()
+	}
 	for _, o := range failed {
 		if kf := known.match(pid, o.Name); kf != nil {
 			fmt.Printf("KNOWN-FINDING: property=%s %s (%s)\n", pid, o.Name, kf.What)
@@ -571,6 +614,21 @@ func writeReplay(verifDir, prop string, o *Obligation, w *World) string {
 		"solver_output": firstN(o.Result.Output, 4000),
 		"replayed":   o.replayConfirmed,
 		"note":       "the failed obligation was generated from /repo's current source; see solver_output for the model (if any)",
+	}
+	if o.replay != nil {
+		m["replay_verdict"] = o.replay.Note
+		if len(o.replay.Approx) > 0 {
+			m["replay_input_approximations"] = o.replay.Approx
+		}
+		if o.replay.TestOut != "" {
+			m["replay_test_output"] = o.replay.TestOut
+		}
+		if o.replay.Source != "" {
+			sp := filepath.Join(dir, tag+"_replay_test.go.txt")
+			os.WriteFile(sp, []byte(o.replay.Source), 0o644)
+			m["replay_test_source"] = sp
+			m["replay_how"] = "in-package test built from the solver's model; run with: go test -overlay <json mapping <pkgdir>/zz_govc_replay_case_test.go to this file and <pkgdir>/zz_govc_replay_rt_test.go to engine/cmd/govc/replayrt/rt.go.txt (package clause adjusted)> -vet=off -run TestGovcReplay <pkgdir>"
+		}
 	}
 	b, _ := json.MarshalIndent(m, "", " ")
 	os.WriteFile(p, b, 0o644)
